@@ -169,6 +169,9 @@ pub struct Registration<T = &'static dyn Callsite> {
 
 pub(crate) use self::inner::register_dispatch;
 pub use self::inner::{rebuild_interest_cache, register};
+#[cfg(all(tracing_verif, feature = "std"))]
+#[doc(hidden)]
+pub use self::inner::__verif_lock_state;
 
 #[cfg(feature = "std")]
 mod inner {
@@ -213,9 +216,13 @@ mod inner {
     /// [`Collect`]: crate::collect::Collect
     /// [cache-docs]: crate::callsite#rebuilding-cached-interest
     pub fn rebuild_interest_cache() {
+        #[cfg(tracing_verif)]
+        crate::__verif::yield_point(10);
         let mut dispatchers = REGISTRY.dispatchers.write().unwrap();
         let callsites = &REGISTRY.callsites;
         rebuild_interest(callsites, &mut dispatchers);
+        #[cfg(tracing_verif)]
+        crate::__verif::yield_point(19);
     }
 
     /// Register a new [`Callsite`] with the global registry.
@@ -229,12 +236,18 @@ mod inner {
     /// [`Callsite`]: crate::callsite::Callsite
     /// [reg-docs]: crate::callsite#registering-callsites
     pub fn register(registration: &'static Registration) {
+        #[cfg(tracing_verif)]
+        crate::__verif::yield_point(20);
         let dispatchers = REGISTRY.dispatchers.read().unwrap();
         rebuild_callsite_interest(&dispatchers, registration.callsite);
         REGISTRY.callsites.push(registration);
+        #[cfg(tracing_verif)]
+        crate::__verif::yield_point(29);
     }
 
     pub(crate) fn register_dispatch(dispatch: &Dispatch) {
+        #[cfg(tracing_verif)]
+        crate::__verif::yield_point(10);
         let mut dispatchers = REGISTRY.dispatchers.write().unwrap();
         let callsites = &REGISTRY.callsites;
 
@@ -242,6 +255,19 @@ mod inner {
         dispatchers.push(dispatch.registrar());
 
         rebuild_interest(callsites, &mut dispatchers);
+        #[cfg(tracing_verif)]
+        crate::__verif::yield_point(19);
+    }
+
+    /// Verification hook (`--cfg tracing_verif` only): could the dispatcher lock be acquired right now for
+    /// (reading, writing)?  Asked by a deterministic scheduler while every worker thread is parked.
+    #[cfg(tracing_verif)]
+    #[doc(hidden)]
+    pub fn __verif_lock_state() -> (bool, bool) {
+        use std::sync::TryLockError::WouldBlock;
+        let writable = !matches!(REGISTRY.dispatchers.try_write(), Err(WouldBlock));
+        let readable = !matches!(REGISTRY.dispatchers.try_read(), Err(WouldBlock));
+        (readable, writable)
     }
 
     fn rebuild_callsite_interest(
@@ -253,6 +279,8 @@ mod inner {
         // Iterate over the collectors in the registry, and — if they are
         // active — register the callsite with them.
         let mut interests = dispatchers.iter().filter_map(|registrar| {
+            #[cfg(tracing_verif)]
+            crate::__verif::yield_point(30);
             registrar
                 .upgrade()
                 .map(|dispatch| dispatch.register_callsite(meta))
@@ -267,12 +295,16 @@ mod inner {
             Interest::never()
         };
 
+        #[cfg(tracing_verif)]
+        crate::__verif::yield_point(31);
         callsite.set_interest(interest)
     }
 
     fn rebuild_interest(callsites: &Callsites, dispatchers: &mut Vec<dispatch::Registrar>) {
         let mut max_level = LevelFilter::OFF;
         dispatchers.retain(|registrar| {
+            #[cfg(tracing_verif)]
+            crate::__verif::yield_point(32);
             if let Some(dispatch) = registrar.upgrade() {
                 // If the collector did not provide a max level hint, assume
                 // that it may enable every level.
@@ -426,16 +458,22 @@ impl<T> LinkedList<T> {
 
 impl LinkedList {
     fn for_each(&self, mut f: impl FnMut(&'static Registration)) {
+        #[cfg(all(tracing_verif, feature = "std"))]
+        crate::__verif::yield_point(40);
         let mut head = self.head.load(Ordering::Acquire);
 
         while let Some(reg) = unsafe { head.as_ref() } {
             f(reg);
 
+            #[cfg(all(tracing_verif, feature = "std"))]
+            crate::__verif::yield_point(41);
             head = reg.next.load(Ordering::Acquire);
         }
     }
 
     fn push(&self, registration: &'static Registration) {
+        #[cfg(all(tracing_verif, feature = "std"))]
+        crate::__verif::yield_point(42);
         let mut head = self.head.load(Ordering::Acquire);
 
         loop {
@@ -449,6 +487,8 @@ impl LinkedList {
                 `tracing-core::callsite::register` once per `Callsite`."
             );
 
+            #[cfg(all(tracing_verif, feature = "std"))]
+            crate::__verif::yield_point(44);
             match self.head.compare_exchange(
                 head,
                 registration as *const _ as *mut _,
